@@ -4,9 +4,13 @@ import DudModel.Props.C08
 # C09 — after a pipeline run, outputs are consistent with inputs (what holds, and what does not)
 
 * `runAct_decision`, `runAct_skips`, `runAct_runs`, `runAct_uptodate`: exactly when `Index.Run`
-  executes the stage command;
-* `second_run_idle_partial`: an up-to-date stage with inputs does not run;
-* negative witnesses over a toy configuration: `stale_downstream_after_partial_commit`,
+  executes the stage command (six reasons, among them "an owned input's recorded checksum differs from
+  what its owner records");
+* `run_sound`, `cmdRun_sound`, `run_sound_owned`: a stage that did not run is, in the final state,
+  exactly as recorded — definition, plain inputs, outputs and (transitively) owned inputs;
+* `second_run_idle_stage`, `second_run_idle`: an up-to-date pipeline without input-less command
+  stages does not run;
+* witnesses over a toy configuration: `stale_downstream_now_reruns`, `consistent_pipeline_idle`,
   `noinput_upstream_reruns_downstream`.
 -/
 namespace Dud
@@ -49,33 +53,36 @@ theorem runAct_runs (cfg : Cfg κ) (exec : Exec κ) (recursive : Bool) (sp : Byt
   simp only [hd, hc, Bool.and_self, if_true]
   rfl
 
-/-- the five reasons, with `allMatch` spelled out -/
+/-- the six reasons, with `allMatch` spelled out -/
 theorem runDecision_true (cfg : Cfg κ) (recursive : Bool) (w : World κ) (stg : Stage)
     (h : runDecision cfg recursive w stg = .ok true) :
     stg.noInputs = true ∨ stg.sumOk cfg = false ∨
       (∃ a, a ∈ sortArts (plainInputs cfg w.idx stg) ∧ matchShort cfg w a = .ok false) ∨
-      upRan cfg recursive w stg = true ∨
+      upRan cfg recursive w stg = true ∨ ownedStale cfg w.idx stg = true ∨
       (∃ a, a ∈ sortArts stg.outputs ∧ matchShort cfg w a = .ok false) := by
   obtain ⟨plainOk, hp, h⟩ := (runDecision_eq_true_iff cfg recursive w stg).1 h
-  rcases h with h | h | h | h | h
+  rcases h with h | h | h | h | h | h
   · exact .inl h
   · exact .inr (.inl h)
   · subst h
     obtain ⟨l1, a, l2, hl, _, ha⟩ := (allMatch_eq_false_iff cfg w _).1 hp
     exact .inr (.inr (.inl ⟨a, by rw [hl]; simp, ha⟩))
   · exact .inr (.inr (.inr (.inl h)))
+  · exact .inr (.inr (.inr (.inr (.inl h))))
   · obtain ⟨l1, a, l2, hl, _, ha⟩ := (allMatch_eq_false_iff cfg w _).1 h
-    exact .inr (.inr (.inr (.inr ⟨a, by rw [hl]; simp, ha⟩)))
+    exact .inr (.inr (.inr (.inr (.inr ⟨a, by rw [hl]; simp, ha⟩))))
 
 /-- "up to date" means: inputs or no command, definition checksum current, every plain input and
-every output matches its recorded checksum, no upstream stage ran -/
+every output matches its recorded checksum, no upstream stage ran, and every input owned by another
+stage carries the checksum that owner records now -/
 theorem runDecision_false (cfg : Cfg κ) (recursive : Bool) (w : World κ) (stg : Stage) :
     runDecision cfg recursive w stg = .ok false ↔
       stg.noInputs = false ∧ stg.sumOk cfg = true ∧
       (∀ a, a ∈ sortArts (plainInputs cfg w.idx stg) → matchShort cfg w a = .ok true) ∧
       upRan cfg recursive w stg = false ∧
+      (∀ a, a ∈ stg.inputs → ∀ sp' oa, findOwner cfg.walkAccumulates w.idx a.path = some (sp', oa) → a.sum = oa.sum) ∧
       (∀ a, a ∈ sortArts stg.outputs → matchShort cfg w a = .ok true) := by
-  rw [runDecision_eq_false_iff, allMatch_eq_true_iff, allMatch_eq_true_iff]
+  rw [runDecision_eq_false_iff, allMatch_eq_true_iff, allMatch_eq_true_iff, ownedStale_eq_false_iff]
 
 /-- a stage recorded as "did not run" was up to date in the state it was looked at -/
 theorem runAct_uptodate (cfg : Cfg κ) (exec : Exec κ) (recursive : Bool) (sp : Bytes) (w w' : World κ)
@@ -84,6 +91,7 @@ theorem runAct_uptodate (cfg : Cfg κ) (exec : Exec κ) (recursive : Bool) (sp :
       stg.noInputs = false ∧ stg.sumOk cfg = true ∧
       (∀ a, a ∈ sortArts (plainInputs cfg w.idx stg) → matchShort cfg w a = .ok true) ∧
       upRan cfg recursive w stg = false ∧
+      (∀ a, a ∈ stg.inputs → ∀ sp' oa, findOwner cfg.walkAccumulates w.idx a.path = some (sp', oa) → a.sum = oa.sum) ∧
       (∀ a, a ∈ sortArts stg.outputs → matchShort cfg w a = .ok true) := by
   obtain ⟨stg, d, hs, hd, h1, h2⟩ := runAct_decision cfg exec recursive sp w w' h
   cases hx : (d && stg.hasCmd) with
@@ -101,17 +109,19 @@ theorem runAct_uptodate (cfg : Cfg κ) (exec : Exec κ) (recursive : Bool) (sp :
 /-! ## (d) an up-to-date stage with inputs stays idle -/
 
 /-- If a stage has inputs (or no command), its definition checksum is current, all its plain inputs
-and its outputs match and no upstream stage ran, `Index.Run` leaves it alone.
-Partial: says nothing about inputs owned by other stages beyond "the owner did not run". -/
-theorem second_run_idle_partial (cfg : Cfg κ) (exec : Exec κ) (recursive : Bool) (sp : Bytes) (w : World κ)
+and its outputs match, no upstream stage ran and its owned inputs carry their owners' current
+checksums, `Index.Run` leaves it alone. -/
+theorem second_run_idle_stage (cfg : Cfg κ) (exec : Exec κ) (recursive : Bool) (sp : Bytes) (w : World κ)
     (stg : Stage) (hs : alookup w.idx sp = some stg)
     (hin : stg.noInputs = false) (hsum : stg.sumOk cfg = true)
     (hplain : ∀ a, a ∈ sortArts (plainInputs cfg w.idx stg) → matchShort cfg w a = .ok true)
     (hup : upRan cfg recursive w stg = false)
+    (howned : ∀ a, a ∈ stg.inputs → ∀ sp' oa,
+      findOwner cfg.walkAccumulates w.idx a.path = some (sp', oa) → a.sum = oa.sum)
     (houts : ∀ a, a ∈ sortArts stg.outputs → matchShort cfg w a = .ok true) :
     runAct cfg exec recursive sp w = .ok { w with ran := (sp, false) :: w.ran } :=
   runAct_skips cfg exec recursive sp w stg false hs
-    ((runDecision_false cfg recursive w stg).2 ⟨hin, hsum, hplain, hup, houts⟩) rfl
+    ((runDecision_false cfg recursive w stg).2 ⟨hin, hsum, hplain, hup, howned, houts⟩) rfl
 
 /-- conversely a command stage without inputs always runs -/
 theorem noInputs_always_runs (cfg : Cfg κ) (exec : Exec κ) (recursive : Bool) (sp : Bytes) (w : World κ)
@@ -138,11 +148,15 @@ def ExecFrame' (cfg : Cfg κ) (exec : Exec κ) : Prop :=
     ∀ a, (a ∈ sortArts stg'.outputs ∨ a ∈ sortArts (plainInputs cfg w.idx stg')) →
       matchShort cfg w1 a = matchShort cfg w a
 
-/-- definition checksum current, every plain input and every output matches its recorded checksum -/
+/-- Everything the stage recorded is current: definition checksum; every plain input and every output
+matches its recorded checksum in the workspace; every input owned by another stage carries the
+checksum that owner records (now) for the owning artifact. -/
 def UpToDate (cfg : Cfg κ) (w : World κ) (stg : Stage) : Prop :=
   stg.sumOk cfg = true ∧
   (∀ a, a ∈ sortArts (plainInputs cfg w.idx stg) → matchShort cfg w a = .ok true) ∧
-  (∀ a, a ∈ sortArts stg.outputs → matchShort cfg w a = .ok true)
+  (∀ a, a ∈ sortArts stg.outputs → matchShort cfg w a = .ok true) ∧
+  (∀ a, a ∈ stg.inputs → ∀ sp' oa, findOwner cfg.walkAccumulates w.idx a.path = some (sp', oa) →
+    a.sum = oa.sum)
 
 omit [DecidableEq κ] in
 theorem ownIdx_subset_upOwners (cfg : Cfg κ) (idx : Index) (sp : Bytes) (stg : Stage)
@@ -165,13 +179,18 @@ theorem alookup_cons_ne' (sp x : Bytes) (b : Bool) (ran : List (Bytes × Bool)) 
   have : (sp == x) = false := by simpa using fun h' => h h'.symm
   simp only [alookup, this, Bool.false_eq_true, if_false]
 
-/-- the invariant of `run_sound_partial` -/
+/-- the invariant of `run_sound`, on the logged state `(w, l)`:
+every stage in `l` is in the memo, so are its owners; the command log lists only stages whose memo
+entry is `true`; a command stage whose memo entry is `true` is in the command log; a stage whose memo
+entry is `false` has inputs (or no command), is up to date NOW, and none of its owners ran. -/
 def RunInv (cfg : Cfg κ) (idx : Index) (p : World κ × List Bytes) : Prop :=
   (∀ x, x ∈ p.2 → (alookup p.1.ran x).isSome = true) ∧
   (∀ x, x ∈ p.2 → ∀ o, o ∈ ownIdx cfg idx x → (alookup p.1.ran o).isSome = true) ∧
   (∀ x, x ∈ p.1.log → didRun p.1 x = true) ∧
-  (∀ x, x ∈ p.2 → ∀ stg, alookup idx x = some stg → stg.hasCmd = true →
-    x ∈ p.1.log ∨ (UpToDate cfg p.1 stg ∧ ∀ o, o ∈ ownIdx cfg idx x → o ∉ p.1.log))
+  (∀ x, x ∈ p.2 → ∀ stg, alookup idx x = some stg → didRun p.1 x = true → stg.hasCmd = true →
+    x ∈ p.1.log) ∧
+  (∀ x, x ∈ p.2 → ∀ stg, alookup idx x = some stg → didRun p.1 x = false →
+    stg.noInputs = false ∧ UpToDate cfg p.1 stg ∧ ∀ o, o ∈ ownIdx cfg idx x → didRun p.1 o = false)
 
 theorem runInv_step (cfg : Cfg κ) (exec : Exec κ) (hex : ExecFrame' cfg exec) (idx : Index)
     (hinj : ∀ x y s, alookup idx x = some s → alookup idx y = some s → x = y)
@@ -180,27 +199,59 @@ theorem runInv_step (cfg : Cfg κ) (exec : Exec κ) (hex : ExecFrame' cfg exec) 
     (hown : ∀ o, o ∈ ownIdx cfg idx sp → (alookup p.1.ran o).isSome = true)
     (h : (runTrav cfg exec true).logged.act sp p = .ok p') : RunInv cfg idx p' := by
   obtain ⟨w, l⟩ := p
-  obtain ⟨s, hact, rfl⟩ := logged_act_inv h
-  simp only at hi hnd hown hact ⊢
+  obtain ⟨s, hact', rfl⟩ := logged_act_inv h
+  simp only at hi hnd hown hact' ⊢
   subst hi
-  obtain ⟨q1, q2, q3, q4⟩ := hq
-  simp only at q1 q2 q3 q4
-  have hact : runAct cfg exec true sp w = .ok s := hact
+  obtain ⟨q1, q2, q3, q4, q5⟩ := hq
+  simp only at q1 q2 q3 q4 q5
+  have hact : runAct cfg exec true sp w = .ok s := hact'
   obtain ⟨stg, d, hs, hd, h1, h2⟩ := runAct_inv cfg exec true sp w s hact
   -- facts common to both cases
   have hne_done : ∀ x, (alookup w.ran x).isSome = true → x ≠ sp := by
     intro x hx hxs; subst hxs; rw [hnd] at hx; cases hx
-  have hran : ∃ b, s.ran = (sp, b) :: w.ran ∧ s.idx = w.idx := by
-    obtain ⟨f1, _, b, f3⟩ := runAct_frame cfg exec hex.1 true sp w s hact
-    exact ⟨b, f3, f1⟩
-  obtain ⟨b, hran, hidx⟩ := hran
+  obtain ⟨hidx, _, b, hran⟩ := runAct_frame cfg exec hex.1 true sp w s hact
   have hmono : ∀ x, (alookup w.ran x).isSome = true → (alookup s.ran x).isSome = true := by
     intro x hx; rw [hran, isSome_alookup_cons, hx, Bool.or_true]
   have hsp : (alookup s.ran sp).isSome = true := by
     rw [hran, isSome_alookup_cons]; simp
   have hdid : ∀ x, x ≠ sp → didRun s x = didRun w x := by
     intro x hx; simp only [didRun, hran, alookup_cons_ne' sp x b w.ran hx]
-  refine ⟨?_, ?_, ?_, ?_⟩
+  have hdidsp : didRun s sp = b := by simp [didRun, hran, alookup]
+  have hstg : ∀ x stgx, x ∈ l → alookup w.idx x = some stgx → stgx ≠ stg := by
+    intro x stgx hx hsx he; subst he
+    exact hne_done x (q1 x hx) (hinj x sp stgx hsx hs)
+  -- how the command log and the statuses change
+  have hcase : (s.log = w.log ∧ b = d ∧ (d && stg.hasCmd) = false ∧
+        ∀ st', UpToDate cfg s st' = UpToDate cfg w st') ∨
+      (s.log = w.log ++ [sp] ∧ b = true ∧
+        ∀ x stgx, x ∈ l → alookup w.idx x = some stgx → UpToDate cfg w stgx → UpToDate cfg s stgx) := by
+    cases hx : (d && stg.hasCmd) with
+    | false =>
+      have hw := h2 hx
+      refine .inl ⟨by rw [hw], ?_, rfl, fun st' => by rw [hw]; rfl⟩
+      rw [hw] at hran
+      simp only [List.cons.injEq, Prod.mk.injEq] at hran
+      exact hran.1.2.symm
+    | true =>
+      obtain ⟨w1, he, hw⟩ := h1 hx
+      obtain ⟨_, _, f3, _, _⟩ := hex.1 stg w w1 he
+      refine .inr ⟨by rw [hw]; simp only [f3], ?_, ?_⟩
+      · rw [hw] at hran
+        simp only [List.cons.injEq, Prod.mk.injEq] at hran
+        exact hran.1.2.symm
+      · intro x stgx hxl hsx ⟨u1, u2, u3, u4⟩
+        have hm : ∀ a, (a ∈ sortArts stgx.outputs ∨ a ∈ sortArts (plainInputs cfg w.idx stgx)) →
+            matchShort cfg s a = matchShort cfg w a := by
+          intro a ha
+          rw [← hex.2 stg w w1 he x stgx hsx (hstg x stgx hxl hsx) a ha, hw]; rfl
+        refine ⟨u1, ?_, ?_, ?_⟩
+        · intro a ha
+          rw [hidx] at ha
+          rw [hm a (.inr ha)]; exact u2 a ha
+        · intro a ha
+          rw [hm a (.inl ha)]; exact u3 a ha
+        · rw [hidx]; exact u4
+  refine ⟨?_, ?_, ?_, ?_, ?_⟩
   · intro x hx
     rcases List.mem_append.1 hx with hx | hx
     · exact hmono x (q1 x hx)
@@ -209,93 +260,103 @@ theorem runInv_step (cfg : Cfg κ) (exec : Exec κ) (hex : ExecFrame' cfg exec) 
     rcases List.mem_append.1 hx with hx | hx
     · exact hmono o (q2 x hx o ho)
     · rw [List.mem_singleton] at hx; subst hx; exact hmono o (hown o ho)
-  · -- everything in the command log did run
-    cases hx : (d && stg.hasCmd) with
-    | true =>
-      obtain ⟨w1, he, hw⟩ := h1 hx
-      obtain ⟨_, _, f3, _, _⟩ := hex.1 stg w w1 he
-      intro x hxl
-      have hxl : x ∈ w.log ++ [sp] := by rw [hw] at hxl; simpa [f3] using hxl
+  · -- everything in the command log has memo entry `true`
+    intro x hxl
+    rcases hcase with ⟨hlog, _⟩ | ⟨hlog, hb, _⟩
+    · rw [hlog] at hxl
+      have := q3 x hxl
+      rw [hdid x (hne_done x (didRun_isSome this))]; exact this
+    · rw [hlog] at hxl
       rcases List.mem_append.1 hxl with hxl | hxl
       · have := q3 x hxl
         rw [hdid x (hne_done x (didRun_isSome this))]; exact this
-      · rw [List.mem_singleton] at hxl; subst hxl
-        rw [hw]; simp [didRun, alookup]
-    | false =>
-      have hw := h2 hx
-      intro x hxl
-      have hxl : x ∈ w.log := by rw [hw] at hxl; exact hxl
-      have := q3 x hxl
-      rw [hdid x (hne_done x (didRun_isSome this))]; exact this
-  · intro x hx stgx hsx hcx
-    cases hxc : (d && stg.hasCmd) with
-    | false =>
-      have hw := h2 hxc
-      have hlog : s.log = w.log := by rw [hw]
-      have hup : ∀ st', UpToDate cfg s st' = UpToDate cfg w st' := by intro st'; rw [hw]; rfl
-      rcases List.mem_append.1 hx with hx | hx
-      · rw [hlog, hup]; exact q4 x hx stgx hsx hcx
-      · rw [List.mem_singleton] at hx; subst hx
-        have : stgx = stg := by rw [hs] at hsx; cases hsx; rfl
-        subst this
-        rw [hcx, Bool.and_true] at hxc
-        subst hxc
-        obtain ⟨_, g2, g3, g4, g5⟩ := (runDecision_false cfg true w stgx).1 hd
-        refine .inr ⟨by rw [hup]; exact ⟨g2, g3, g5⟩, ?_⟩
-        intro o ho hol
-        rw [hlog] at hol
-        have hdo := q3 o hol
+      · rw [List.mem_singleton] at hxl; rw [hxl, hdidsp, hb]
+  · -- a command stage with memo entry `true` was executed
+    intro x hx stgx hsx hdx hcx
+    rcases List.mem_append.1 hx with hx | hx
+    · have hxsp := hne_done x (q1 x hx)
+      rw [hdid x hxsp] at hdx
+      have := q4 x hx stgx hsx hdx hcx
+      rcases hcase with ⟨hlog, _⟩ | ⟨hlog, _⟩
+      · rw [hlog]; exact this
+      · rw [hlog]; exact List.mem_append_left _ this
+    · rw [List.mem_singleton] at hx
+      rw [hx] at hsx hdx
+      have : stgx = stg := by rw [hs] at hsx; cases hsx; rfl
+      subst this
+      rcases hcase with ⟨_, hb, hdc, _⟩ | ⟨hlog, _⟩
+      · rw [hdidsp, hb] at hdx
+        rw [hdx, hcx] at hdc; cases hdc
+      · rw [hlog, hx]; simp
+  · -- a stage with memo entry `false` is up to date now and none of its owners ran
+    intro x hx stgx hsx hdx
+    rcases List.mem_append.1 hx with hx | hx
+    · have hxsp := hne_done x (q1 x hx)
+      rw [hdid x hxsp] at hdx
+      obtain ⟨g0, g1, g2⟩ := q5 x hx stgx hsx hdx
+      refine ⟨g0, ?_, fun o ho => ?_⟩
+      · rcases hcase with ⟨_, _, _, hup⟩ | ⟨_, _, hup⟩
+        · rw [hup]; exact g1
+        · exact hup x stgx hx hsx g1
+      · rw [hdid o (hne_done o (q2 x hx o ho))]; exact g2 o ho
+    · rw [List.mem_singleton] at hx
+      rw [hx] at hsx hdx
+      have : stgx = stg := by rw [hs] at hsx; cases hsx; rfl
+      subst this
+      rcases hcase with ⟨_, hb, _, hup⟩ | ⟨_, hb, _⟩
+      · rw [hdidsp, hb] at hdx
+        subst hdx
+        obtain ⟨g1, g2, g3, g4, g5, g6⟩ := (runDecision_false cfg true w stgx).1 hd
+        refine ⟨g1, by rw [hup]; exact ⟨g2, g3, g6, g5⟩, fun o ho => ?_⟩
+        rw [hx] at ho
+        rw [hdid o (hne_done o (hown o ho))]
         simp only [upRan, Bool.true_and, List.any_eq_false] at g4
-        have := g4 o (ownIdx_subset_upOwners cfg w.idx x stgx hs o ho)
-        rw [hdo] at this; exact this rfl
-    | true =>
-      obtain ⟨w1, he, hw⟩ := h1 hxc
-      obtain ⟨f1, _, f3, _, _⟩ := hex.1 stg w w1 he
-      have hlog : s.log = w.log ++ [sp] := by rw [hw]; simp only [f3]
-      rcases List.mem_append.1 hx with hx | hx
-      · have hxsp : x ≠ sp := hne_done x (q1 x hx)
-        rcases q4 x hx stgx hsx hcx with hl | ⟨⟨u1, u2, u3⟩, hl⟩
-        · exact .inl (by rw [hlog]; exact List.mem_append_left _ hl)
-        · have hstg : stgx ≠ stg := by
-            intro he'; subst he'; exact hxsp (hinj x sp stgx hsx hs)
-          have hm : ∀ a, (a ∈ sortArts stgx.outputs ∨ a ∈ sortArts (plainInputs cfg w.idx stgx)) →
-              matchShort cfg s a = matchShort cfg w a := by
-            intro a ha
-            rw [← hex.2 stg w w1 he x stgx hsx hstg a ha, hw]; rfl
-          refine .inr ⟨⟨u1, ?_, ?_⟩, ?_⟩
-          · intro a ha
-            rw [hidx] at ha
-            rw [hm a (.inr ha)]; exact u2 a ha
-          · intro a ha
-            rw [hm a (.inl ha)]; exact u3 a ha
-          · intro o ho hol
-            rw [hlog] at hol
-            rcases List.mem_append.1 hol with hol | hol
-            · exact hl o ho hol
-            · exact hne_done o (q2 x hx o ho) (List.mem_singleton.1 hol)
-      · rw [List.mem_singleton] at hx; subst hx
-        exact .inl (by rw [hlog]; simp)
+        have := g4 o (ownIdx_subset_upOwners cfg w.idx sp stgx hs o ho)
+        simpa using this
+      · rw [hdidsp, hb] at hdx; cases hdx
 
-/-- **What `dud run` guarantees (partial).** After a successful recursive traversal from a world where
-nothing ran, every command stage in the memo either executed, or is — in the FINAL state — up to date
-(definition checksum current, plain inputs and outputs match their recorded checksums) and none of
-its owners executed.
+/-- The conclusion of `run_sound` for one stage `x` (with definition `stg`) of the memo, in the final
+world `w'`: either its memo entry is `true` — and then, if it has a command, the command was executed
+in this run — or its memo entry is `false`, it was not executed, it has inputs (or no command), it is
+up to date in the FINAL state, and all its owners are in the memo with entry `false` (so the same
+holds for them, transitively). -/
+def RunSound (cfg : Cfg κ) (idx : Index) (w' : World κ) (x : Bytes) (stg : Stage) : Prop :=
+  (didRun w' x = true ∧ (stg.hasCmd = true → x ∈ w'.log)) ∨
+  (didRun w' x = false ∧ x ∉ w'.log ∧ stg.noInputs = false ∧ UpToDate cfg w' stg ∧
+    ∀ o, o ∈ ownIdx cfg idx x → (alookup w'.ran o).isSome = true ∧ didRun w' o = false)
 
-Missing w.r.t. "outputs are consistent with inputs": an input owned by another stage is never compared
-with the checksum THIS stage recorded for it (nor with the owner's recorded output checksum); the only
-evidence used for such inputs is "the owner did not execute in this run" — see
-`Toy.stale_downstream_after_partial_commit`. Also needed: the frame hypothesis `ExecFrame'` on the
-commands and distinct stages having distinct definitions (`hinj`). -/
-theorem run_sound_partial (cfg : Cfg κ) (exec : Exec κ) (hex : ExecFrame' cfg exec) (idx : Index)
+omit [DecidableEq κ] in
+theorem RunInv.sound {cfg : Cfg κ} {idx : Index} {w' : World κ} {l' : List Bytes}
+    [DecidableEq κ] (hq : RunInv cfg idx (w', l')) (x : Bytes) (stg : Stage) (hxl : x ∈ l')
+    (hsx : alookup idx x = some stg) : RunSound cfg idx w' x stg := by
+  obtain ⟨q1, q2, q3, q4, q5⟩ := hq
+  cases hd : didRun w' x with
+  | true => exact .inl ⟨hd, q4 x hxl stg hsx hd⟩
+  | false =>
+    obtain ⟨g0, g1, g2⟩ := q5 x hxl stg hsx hd
+    refine .inr ⟨hd, fun hl => ?_, g0, g1, fun o ho => ⟨q2 x hxl o ho, g2 o ho⟩⟩
+    have := q3 x hl
+    rw [hd] at this; cases this
+
+/-- **What `dud run` guarantees.** After a successful recursive traversal from a world where nothing
+ran, every stage of the memo either has memo entry `true` (and, if it has a command, executed), or was
+not executed and is, in the FINAL state, exactly as recorded: definition checksum current, plain
+inputs and outputs match their recorded checksums, every owned input carries the checksum its owner
+records, and no owner executed — transitively, since the owners are in the memo with entry `false`.
+
+Hypotheses: the frame condition `ExecFrame'` on the commands (in particular `exec` does not change
+the index, so recorded checksums are stable during the run) and `hinj` (distinct stage paths carry
+distinct definitions — `exec` only sees the definition). See `run_sound_owned` for what the owned-input
+clause means in the workspace. -/
+theorem run_sound (cfg : Cfg κ) (exec : Exec κ) (hex : ExecFrame' cfg exec) (idx : Index)
     (hinj : ∀ x y s, alookup idx x = some s → alookup idx y = some s → x = y)
     (fuel : Nat) (avail : List Bytes) (sp : Bytes) (w w' : World κ) (l' : List Bytes)
     (hi : w.idx = idx) (h0 : w.ran = []) (hlog : w.log = [])
     (h : visit (runTrav cfg exec true).logged true fuel avail sp (w, []) = .ok (w', l')) :
-    ∀ x stg, (alookup w'.ran x).isSome = true → alookup idx x = some stg → stg.hasCmd = true →
-      x ∈ w'.log ∨ (UpToDate cfg w' stg ∧ ∀ o, o ∈ ownIdx cfg idx x → o ∉ w'.log) := by
+    ∀ x stg, (alookup w'.ran x).isSome = true → alookup idx x = some stg → RunSound cfg idx w' x stg := by
   have hT := runTrav_lawfulOn cfg exec hex.1 true idx
   have hq0 : RunInv cfg idx (w, []) := by
-    refine ⟨by simp, by simp, ?_, by simp⟩
+    refine ⟨by simp, by simp, ?_, by simp, by simp⟩
     simp [hlog]
   have hq := visit_preserves (Q := RunInv cfg idx) hT
     (fun sp p p' hi hq hnd hown hact =>
@@ -304,37 +365,125 @@ theorem run_sound_partial (cfg : Cfg κ) (exec : Exec κ) (hex : ExecFrame' cfg 
   have h0' : ∀ x, (runTrav cfg exec true).isDone w x = false := by
     intro x; simp [runTrav, h0, alookup]
   have hspec := visit_spec_on _ _ _ hT true fuel avail sp w w' l' hi h0' h
-  intro x stg hx hsx hcx
+  intro x stg hx hsx
   have hxl : x ∈ l' := by
     have := hspec.2.2.2.2.1 x
     simp only [runTrav] at this
     rw [hx] at this
     simpa using this.symm
-  exact hq.2.2.2 x hxl stg hsx hcx
+  exact hq.sound x stg hxl hsx
 
 /-- the same for the whole command `dud run` (recursive, any targets) -/
-theorem cmdRun_sound_partial (cfg : Cfg κ) (exec : Exec κ) (hex : ExecFrame' cfg exec)
+theorem cmdRun_sound (cfg : Cfg κ) (exec : Exec κ) (hex : ExecFrame' cfg exec)
     (targets : List Bytes) (w w' : World κ)
     (hinj : ∀ x y s, alookup w.idx x = some s → alookup w.idx y = some s → x = y)
     (h : cmdRun cfg exec false targets w = .ok w') :
-    ∀ x stg, (alookup w'.ran x).isSome = true → alookup w.idx x = some stg → stg.hasCmd = true →
-      x ∈ w'.log ∨ (UpToDate cfg w' stg ∧ ∀ o, o ∈ ownIdx cfg w.idx x → o ∉ w'.log) := by
-  obtain ⟨l', hl, _, _, _, _, hdone, _⟩ := cmdRun_spec cfg exec hex.1 false targets w w' h
+    w'.idx = w.idx ∧
+    ∀ x stg, (alookup w'.ran x).isSome = true → alookup w.idx x = some stg → RunSound cfg w.idx w' x stg := by
+  obtain ⟨l', hl, hidx, _, _, _, hdone, _⟩ := cmdRun_spec cfg exec hex.1 false targets w w' h
   simp only [Bool.not_false] at hl
   have hq0 : RunInv cfg w.idx (fresh w, []) := by
-    refine ⟨by simp, by simp, ?_, by simp⟩
+    refine ⟨by simp, by simp, ?_, by simp, by simp⟩
     simp [fresh]
   have hq := perTarget_preserves (Q := RunInv cfg w.idx) (runTrav_lawfulOn cfg exec hex.1 true w.idx)
     (fun w => w.idx.length + 1) allStages _
     (fun sp p p' _ hi hq hnd hown hact =>
       runInv_step cfg exec hex w.idx hinj sp p p' hi hq hnd (hown rfl) hact)
     (fresh w, []) (w', l') rfl hq0 hl
-  intro x stg hx hsx hcx
+  refine ⟨hidx, fun x stg hx hsx => ?_⟩
   have hxl : x ∈ l' := by
     have := hdone x
     rw [hx] at this
     simpa using this.symm
-  exact hq.2.2.2 x hxl stg hsx hcx
+  exact hq.sound x stg hxl hsx
+
+/-! ### what the owned-input clause means in the workspace -/
+
+omit [DecidableEq κ] in
+theorem ownerWalk_mem (wa : Bool) (arts : List Art) (full : Bytes) : ∀ (parts : List Bytes) (dir : Bytes) (o : Art),
+    ownerWalk wa arts full dir parts = some o → o ∈ arts
+  | [], _, _, h => by simp [ownerWalk] at h
+  | part :: r, dir, o, h => by
+    simp only [ownerWalk] at h
+    generalize Path.join [if wa then dir else [], part] = d at h
+    cases hf : findArt arts d with
+    | none =>
+      rw [hf] at h
+      exact ownerWalk_mem wa arts full r _ o h
+    | some o' =>
+      rw [hf] at h
+      simp only at h
+      by_cases hc : (!o'.noRec || d == full) = true
+      · rw [if_pos hc] at h
+        cases h
+        exact List.mem_of_find?_eq_some hf
+      · rw [if_neg hc] at h
+        exact ownerWalk_mem wa arts full r _ o h
+
+omit [DecidableEq κ] in
+/-- the owning artifact is an output of the owning stage, which is in the index -/
+theorem findOwner_mem (wa : Bool) (idx : Index) (p : Bytes) (o : Bytes) (oa : Art)
+    (h : findOwner wa idx p = some (o, oa)) : ∃ stg, (o, stg) ∈ idx ∧ oa ∈ stg.outputs := by
+  induction idx with
+  | nil => simp [findOwner] at h
+  | cons e r ih =>
+    obtain ⟨k, stg⟩ := e
+    simp only [findOwner] at h
+    split at h
+    · rename_i a hf
+      cases h
+      exact ⟨stg, List.mem_cons_self, List.mem_of_find?_eq_some hf⟩
+    · split at h
+      · rename_i a hf
+        cases h
+        exact ⟨stg, List.mem_cons_self, ownerWalk_mem _ _ _ _ _ _ hf⟩
+      · obtain ⟨stg', h1, h2⟩ := ih h
+        exact ⟨stg', List.mem_cons_of_mem _ h1, h2⟩
+
+omit [DecidableEq κ] in
+theorem alookup_of_mem_nodup {idx : Index} (hn : (idx.map (·.1)).Nodup) {sp : Bytes} {stg : Stage}
+    (hm : (sp, stg) ∈ idx) : alookup idx sp = some stg := by
+  induction idx with
+  | nil => cases hm
+  | cons e r ih =>
+    obtain ⟨k, v⟩ := e
+    simp only [List.map_cons, List.nodup_cons] at hn
+    simp only [alookup]
+    rcases List.mem_cons.1 hm with h | h
+    · cases h; simp
+    · have : k ≠ sp := fun hk => hn.1 (hk ▸ List.mem_map.2 ⟨(sp, stg), h, rfl⟩)
+      have hk' : (k == sp) = false := by simpa using this
+      simp only [hk', Bool.false_eq_true, if_false]
+      exact ih hn.2 h
+
+/-- index well-formedness (Go: the index and the artifacts of a stage are maps): distinct stage paths,
+and within a stage distinct output paths -/
+def IdxWF (idx : Index) : Prop :=
+  (idx.map (·.1)).Nodup ∧ ∀ sp stg, (sp, stg) ∈ idx → stg.outputs.Pairwise (fun a b => a.path ≠ b.path)
+
+/-- **The owned inputs of a stage that did not run.** In the situation of `run_sound`, for a stage `x`
+with memo entry `false` and any of its inputs `a` owned by stage `o` through the output artifact `oa`:
+`o` is a stage of the index, was looked at and did not run either, `a` carries the checksum recorded in
+`oa`, and `oa` matches the workspace. So what `x` recorded about its owned input is what is there. -/
+theorem run_sound_owned (cfg : Cfg κ) (idx : Index) (hwf : IdxWF idx) (w' : World κ) (hi : w'.idx = idx)
+    (hall : ∀ x stg, (alookup w'.ran x).isSome = true → alookup idx x = some stg → RunSound cfg idx w' x stg)
+    (x : Bytes) (stg : Stage) (hx : (alookup w'.ran x).isSome = true) (hsx : alookup idx x = some stg)
+    (hd : didRun w' x = false) (a : Art) (ha : a ∈ stg.inputs) (o : Bytes) (oa : Art)
+    (ho : findOwner cfg.walkAccumulates idx a.path = some (o, oa)) :
+    ∃ stgo, alookup idx o = some stgo ∧ oa ∈ stgo.outputs ∧ didRun w' o = false ∧
+      a.sum = oa.sum ∧ matchShort cfg w' oa = .ok true := by
+  rcases hall x stg hx hsx with ⟨h, _⟩ | ⟨_, _, _, ⟨_, _, _, u4⟩, hown⟩
+  · rw [hd] at h; cases h
+  obtain ⟨stgo, hm, hoa⟩ := findOwner_mem _ _ _ _ _ ho
+  have hso := alookup_of_mem_nodup hwf.1 hm
+  have hoo : o ∈ ownIdx cfg idx x := by
+    rw [mem_ownIdx]
+    exact ⟨stg, hsx, a.path, List.mem_map.2 ⟨a, ha, rfl⟩, by rw [ho]; rfl⟩
+  obtain ⟨hos, hod⟩ := hown o hoo
+  refine ⟨stgo, hso, hoa, hod, u4 a ha o oa (by rw [hi]; exact ho), ?_⟩
+  rcases hall o stgo hos hso with ⟨h, _⟩ | ⟨_, _, _, ⟨_, _, v3, _⟩, _⟩
+  · rw [hod] at h; cases h
+  · exact v3 oa (mem_sortArts_of_mem (hwf.2 o stgo hm) hoa)
 
 /-! ## (d) at command level: an up-to-date pipeline stays idle -/
 
@@ -342,21 +491,24 @@ theorem matchShort_congr (cfg : Cfg κ) (w1 w2 : World κ) (h1 : w1.ws = w2.ws) 
     (a : Art) : matchShort cfg w1 a = matchShort cfg w2 a := by
   simp only [matchShort, h1, h2]
 
-/-- If every stage upstream of a target has inputs (or no command) and is up to date, `dud run`
-executes nothing: empty command log, workspace and cache untouched, every memo entry `false`.
-Partial in the same sense as `second_run_idle_partial`; the hypothesis "has inputs or no command"
-cannot be dropped (`Toy.noinput_upstream_reruns_downstream`). -/
-theorem second_run_idle_cmd_partial (cfg : Cfg κ) (exec : Exec κ) (hex : ExecFrame exec) (single : Bool)
+/-- **A second `dud run` is idle.** If no command stage without inputs is upstream of a target and
+every stage upstream of a target is up to date (definition, plain inputs, outputs, and owned inputs
+carrying their owners' checksums), `dud run` executes nothing: empty command log, workspace and cache
+untouched, every memo entry `false`. The hypothesis on input-less command stages cannot be dropped
+(`Toy.noinput_upstream_reruns_downstream`). -/
+theorem second_run_idle (cfg : Cfg κ) (exec : Exec κ) (hex : ExecFrame exec) (single : Bool)
     (targets : List Bytes) (w w' : World κ)
+    (hni : ∀ x stg, (∃ t, t ∈ (if targets.isEmpty then allStages w else targets) ∧
+        Reach (ownIdx cfg w.idx) t x) → alookup w.idx x = some stg → stg.noInputs = false)
     (hup : ∀ x stg, (∃ t, t ∈ (if targets.isEmpty then allStages w else targets) ∧
-        Reach (ownIdx cfg w.idx) t x) → alookup w.idx x = some stg →
-        stg.noInputs = false ∧ UpToDate cfg w stg)
+        Reach (ownIdx cfg w.idx) t x) → alookup w.idx x = some stg → UpToDate cfg w stg)
     (h : cmdRun cfg exec single targets w = .ok w') :
-    w'.log = [] ∧ w'.ws = w.ws ∧ w'.store = w.store ∧ ∀ x, didRun w' x = false := by
-  obtain ⟨l', hl, _⟩ := cmdRun_spec cfg exec hex single targets w w' h
+    w'.log = [] ∧ w'.ws = w.ws ∧ w'.store = w.store ∧ w'.idx = w.idx ∧ ∀ x, didRun w' x = false := by
+  obtain ⟨l', hl, hidx, _⟩ := cmdRun_spec cfg exec hex single targets w w' h
   let Q : World κ × List Bytes → Prop := fun p =>
     p.1.log = [] ∧ p.1.ws = w.ws ∧ p.1.store = w.store ∧ ∀ x, didRun p.1 x = false
   have hq0 : Q (fresh w, []) := ⟨rfl, rfl, rfl, fun x => by simp [didRun, fresh, alookup]⟩
+  suffices hQ : Q (w', l') from ⟨hQ.1, hQ.2.1, hQ.2.2.1, hidx, hQ.2.2.2⟩
   refine perTarget_preserves (Q := Q) (runTrav_lawfulOn cfg exec hex (!single) w.idx)
     (fun w => w.idx.length + 1) allStages _ ?_ (fresh w, []) (w', l') rfl hq0 hl
   intro sp p p' hR hi ⟨q1, q2, q3, q4⟩ _ _ hlact
@@ -366,15 +518,17 @@ theorem second_run_idle_cmd_partial (cfg : Cfg κ) (exec : Exec κ) (hex : ExecF
   have hact : runAct cfg exec (!single) sp v = .ok s := hact'
   obtain ⟨stg, d, hs, hd, _, h2⟩ := runAct_inv cfg exec (!single) sp v s hact
   rw [hi] at hs
-  obtain ⟨hni, u1, u2, u3⟩ := hup sp stg hR hs
+  have hn := hni sp stg hR hs
+  obtain ⟨u1, u2, u3, u4⟩ := hup sp stg hR hs
   have hdec : runDecision cfg (!single) v stg = .ok false := by
     rw [runDecision_false]
-    refine ⟨hni, u1, ?_, ?_, ?_⟩
+    refine ⟨hn, u1, ?_, ?_, ?_, ?_⟩
     · intro a ha
       rw [hi] at ha
       rw [matchShort_congr cfg v w q2 q3]; exact u2 a ha
     · simp only [upRan, Bool.and_eq_false_iff, List.any_eq_false]
       exact .inr fun o _ => by simp [q4 o]
+    · rw [hi]; exact u4
     · intro a ha
       rw [matchShort_congr cfg v w q2 q3]; exact u3 a ha
   rw [hdec] at hd
@@ -430,15 +584,32 @@ def w1 : World Nat :=
 
 #eval (cmdRun cfg exec0 false [] w1).map (fun w => (w.log, w.ran))
 
-/-- **Stale downstream after a partial commit.** B's output `b` was made from the old `a`; `a` has been
-regenerated and committed by A. `dud run` executes nothing: B never compares the checksum it recorded
-for its input `a` (`"aaa"`) with A's recorded output checksum (`"bbb"`) nor with the workspace. -/
-theorem stale_downstream_after_partial_commit :
-    (cmdRun cfg exec0 false [] w1).map (fun w => (w.log, w.ran)) = .ok ([], [(spB, false), (spA, false)]) ∧
+/-- **The stale downstream stage now re-runs.** B's output `b` was made from the old `a`; `a` has been
+regenerated and committed by A (A records `"bbb"`), B still records `"aaa"` for its input `a`.
+`dud run` leaves A alone and executes B ("owned input out-of-date"). Before the fix nothing ran. -/
+theorem stale_downstream_now_reruns :
+    (cmdRun cfg exec0 false [] w1).map (fun w => (w.log, w.ran)) = .ok ([spB], [(spB, true), (spA, false)]) ∧
     ownersOf cfg w1 spB = .ok [spA] ∧
     (findArt stB.inputs pa).map (·.sum) = some "aaa" ∧ (findArt stA.outputs pa).map (·.sum) = some "bbb" ∧
-    matchShort cfg w1 { path := pa, sum := "aaa" } = .ok false := by
-  refine ⟨by rfl, by rfl, by rfl, by rfl, by rfl⟩
+    ownedStale cfg w1.idx stB = true ∧ ownedStale cfg w1.idx stA = false := by
+  refine ⟨by rfl, by rfl, by rfl, by rfl, by rfl, by rfl⟩
+
+/-- the check does not depend on `--single-stage` -/
+example : (cmdRun cfg exec0 true [spB] w1).map (fun w => (w.log, w.ran)) = .ok ([spB], [(spB, true)]) := by rfl
+
+/-- B as it is after re-running and committing: it records A's current checksum for `a` -/
+def stB3 : Stage :=
+  withSum { cmd := [121], inputs := [{ path := pa, sum := "bbb" }], outputs := [{ path := pb, sum := "ccc" }] }
+
+/-- a consistent pipeline -/
+def w3 : World Nat := { w1 with idx := [(spA, stA), (spB, stB3)] }
+
+#eval (cmdRun cfg exec0 false [] w3).map (fun w => (w.log, w.ran))
+
+/-- on the consistent pipeline nothing runs -/
+theorem consistent_pipeline_idle :
+    (cmdRun cfg exec0 false [] w3).map (fun w => (w.log, w.ran)) = .ok ([], [(spB, false), (spA, false)]) := by
+  rfl
 
 def stA2 : Stage := withSum { cmd := [120], inputs := [], outputs := [{ path := pa, sum := "bbb" }] }
 def stB2 : Stage :=
@@ -489,14 +660,40 @@ theorem w1_inj : ∀ x y s, alookup w1.idx x = some s → alookup w1.idx y = som
         · cases hy
     · cases hx
 
-/-- `cmdRun_sound_partial` applies to the stale world `w1`: B is "up to date" in the only sense `dud run`
-knows, although its output was made from an input that has since changed -/
-example : UpToDate cfg w1 stB ∧ ∀ o, o ∈ ownIdx cfg w1.idx spB → o ∉ ([] : List Bytes) := by
-  have h : cmdRun cfg exec0 false [] w1 = .ok { w1 with ran := [(spB, false), (spA, false)] } := by rfl
-  have := cmdRun_sound_partial cfg exec0 exec0_frame [] w1 _ w1_inj h spB stB (by rfl) (by rfl) (by rfl)
-  rcases this with h | h
+theorem w3_inj : ∀ x y s, alookup w3.idx x = some s → alookup w3.idx y = some s → x = y := by
+  intro x y s hx hy
+  simp only [w3, alookup] at hx hy
+  split at hx
+  · split at hy
+    · simp_all
+    · split at hy
+      · cases hx; cases hy
+      · cases hy
+  · split at hx
+    · split at hy
+      · cases hx; cases hy
+      · split at hy
+        · simp_all
+        · cases hy
+    · cases hx
+
+/-- `cmdRun_sound` on the consistent pipeline: B did not run, is up to date in the final state — in
+particular records for `a` what A records — and its owner A did not run either -/
+example : UpToDate cfg w3 stB3 ∧
+    ∀ o, o ∈ ownIdx cfg w3.idx spB → (alookup [(spB, false), (spA, false)] o).isSome = true ∧
+      didRun { w3 with ran := [(spB, false), (spA, false)] } o = false := by
+  have h : cmdRun cfg exec0 false [] w3 = .ok { w3 with ran := [(spB, false), (spA, false)] } := by rfl
+  have := (cmdRun_sound cfg exec0 exec0_frame [] w3 _ w3_inj h).2 spB stB3 (by rfl) (by rfl)
+  rcases this with ⟨h, _⟩ | ⟨_, _, _, h1, h2⟩
   · cases h
-  · exact h
+  · exact ⟨h1, h2⟩
+
+/-- the well-formedness hypothesis of `run_sound_owned` is satisfiable -/
+example : IdxWF w3.idx := by
+  refine ⟨by decide, ?_⟩
+  intro sp stg h
+  simp only [w3, List.mem_cons, Prod.mk.injEq, List.not_mem_nil, or_false] at h
+  rcases h with ⟨_, rfl⟩ | ⟨_, rfl⟩ <;> simp [stA, stB3, withSum]
 
 /-- `dud commit` on the toy pipeline: both stages, owner first -/
 example : (cmdCommit cfg .copy [] w1).map (·.done) = .ok [spB, spA] := by rfl
@@ -511,12 +708,14 @@ end Toy
 #print axioms runDecision_true
 #print axioms runDecision_false
 #print axioms runAct_uptodate
-#print axioms second_run_idle_partial
-#print axioms run_sound_partial
-#print axioms cmdRun_sound_partial
-#print axioms second_run_idle_cmd_partial
+#print axioms second_run_idle_stage
+#print axioms run_sound
+#print axioms cmdRun_sound
+#print axioms run_sound_owned
+#print axioms second_run_idle
 #print axioms noInputs_always_runs
-#print axioms Toy.stale_downstream_after_partial_commit
+#print axioms Toy.stale_downstream_now_reruns
+#print axioms Toy.consistent_pipeline_idle
 #print axioms Toy.noinput_upstream_reruns_downstream
 
 end Dud
